@@ -417,13 +417,26 @@ impl<Store: StorageData> DbImpl<Store> {
         let mut transaction = TransactionMut::new(&mut *self);
         let result = f(&mut transaction);
 
-        if result.is_ok() {
-            transaction.commit()?;
-        } else {
-            transaction.rollback()?;
+        // A storage operation that failed part-way (e.g. the disk is full) leaves
+        // its nested storage transaction open and the in-memory state ahead of the
+        // file. The undo stack cannot be trusted then: restore the storage from the
+        // write ahead log and reload the database from it instead.
+        if self.storage.transactions() != id {
+            self.recover()?;
+            return result;
         }
 
-        self.storage.commit(id)?;
+        let transaction = TransactionMut::new(&mut *self);
+        let finished = if result.is_ok() {
+            transaction.commit()
+        } else {
+            transaction.rollback()
+        };
+
+        if let Err(error) = finished.and_then(|_| self.storage.commit(id)) {
+            self.recover()?;
+            return Err(error.into());
+        }
 
         result
     }
@@ -454,6 +467,17 @@ impl<Store: StorageData> DbImpl<Store> {
 
     pub(crate) fn commit(&mut self) -> Result<(), DbError> {
         self.undo_stack.clear();
+        Ok(())
+    }
+
+    fn recover(&mut self) -> Result<(), DbError> {
+        self.undo_stack.clear();
+        self.storage.rollback()?;
+        let index = self.storage.value::<DbStorageIndex>(StorageIndex(1))?;
+        self.graph = DbGraph::from_storage(&self.storage, index.graph)?;
+        self.aliases = DbIndexedMap::from_storage(&self.storage, index.aliases)?;
+        self.indexes = DbIndexes::from_storage(&self.storage, index.indexes)?;
+        self.values = DbKeyValues::from_storage(&self.storage, index.values)?;
         Ok(())
     }
 
